@@ -11,6 +11,8 @@ import (
 type Step struct {
 	Thread int
 	Point  string
+	Alive  int // number of unfinished threads the scheduler chose among at this step
+	Choice int // index chosen among them
 }
 
 type schedEvent struct {
@@ -85,18 +87,75 @@ func RunSchedule(threads []func(), schedule []int, onStep func(thread int)) []St
 		if ev.thread != th {
 			panic(fmt.Sprintf("vlib.RunSchedule: event from thread %d while %d was running", ev.thread, th))
 		}
+		nAlive := len(alive)
 		if ev.done {
-			trace = append(trace, Step{Thread: th})
+			trace = append(trace, Step{Thread: th, Alive: nAlive, Choice: idx})
 			alive = append(alive[:idx], alive[idx+1:]...)
 			if ev.panic != nil && panicked == nil {
 				panicked = ev.panic
 			}
 		} else {
-			trace = append(trace, Step{Thread: th, Point: ev.point})
+			trace = append(trace, Step{Thread: th, Point: ev.point, Alive: nAlive, Choice: idx})
 		}
 	}
 	if panicked != nil {
 		panic(panicked)
 	}
 	return trace
+}
+
+// EnumerateSchedules explores every schedule of a deterministic cooperative
+// program depth-first (stateless search): run executes the program under the
+// given schedule prefix (choices beyond the prefix default to 0) and returns
+// its trace; visit (optional) sees each complete execution. To split the space
+// over processes, the distinct choice-prefixes of depth splitDepth are listed
+// first and shard s of shards takes every shards-th subtree. It returns the
+// number of complete schedules this shard executed below its subtrees.
+func EnumerateSchedules(run func(schedule []int) []Step, splitDepth, shard, shards int) int64 {
+	if shards < 1 {
+		shards = 1
+	}
+	prefixes := dfs(run, nil, splitDepth, nil)
+	var count int64
+	for i, p := range prefixes {
+		if i%shards != shard {
+			continue
+		}
+		dfs(run, p, -1, &count)
+	}
+	return count
+}
+
+// dfs enumerates schedules extending base. If limit >= 0 only the first limit
+// positions are varied and the distinct prefixes (of length <= limit) are
+// returned; otherwise every position after base is varied and *count is
+// incremented per execution.
+func dfs(run func([]int) []Step, base []int, limit int, count *int64) [][]int {
+	var out [][]int
+	prefix := append([]int{}, base...)
+	for {
+		trace := run(prefix)
+		if count != nil {
+			*count++
+		}
+		n := len(trace)
+		if limit >= 0 && n > limit {
+			n = limit
+		}
+		choices := make([]int, n)
+		for i := 0; i < n; i++ {
+			choices[i] = trace[i].Choice
+		}
+		if limit >= 0 {
+			out = append(out, append([]int{}, choices...))
+		}
+		i := n - 1
+		for i >= len(base) && choices[i]+1 >= trace[i].Alive {
+			i--
+		}
+		if i < len(base) {
+			return out
+		}
+		prefix = append(choices[:i:i], choices[i]+1)
+	}
 }
